@@ -236,8 +236,11 @@ def tasks(tier, seed):
     n = 12 if tier == "quick" else 16
     for fam, refuse in (("ET", []), ("ET", ["eco_v2", "peak_shaving"]), ("DT", []), ("ES", [])):
         ts.append({"name": f"public-count-{fam}-{len(refuse)}", "fn": "public", "item": (fam, refuse, n)})
-    for i, (e, f, rng) in enumerate(ident):
-        ts.append({"name": f"ident-{i}", "fn": "ident", "item": (e, f, rng)})
+    k = 0
+    for (e, f, (lo, hi)) in ident:
+        for a in range(lo, hi, 6):       # chunks of 6 byte positions x 256 values (balanced tasks)
+            ts.append({"name": f"ident-{k}", "fn": "ident", "item": (e, f, (a, min(a + 6, hi)))})
+            k += 1
     return ts
 
 
